@@ -1,6 +1,6 @@
 (* C14 — a clone is an equal and fully independent cache (abstract part; the shared-heap frame
    statement is Layer B, B/FrameB.v). *)
-Require Import LruV.T.TableA LruV.A.InvA LruV.B.FrameB LruV.B.StepB LruV.B.RefineLemmas LruV.B.CloneB LruV.B.TotalB LruV.B.ReachB.
+Require Import LruV.T.TableA LruV.A.InvA LruV.B.FrameB LruV.B.StepB LruV.B.RefineLemmas LruV.B.CloneB LruV.B.TotalB LruV.B.ReachB LruV.B.RefineB LruV.B.FrameOps LruV.B.FrameRun.
 
 Definition same_modulo_tokens (a b : entry) : Prop :=
   kid (ek a) = kid (ek b) /\ kheap (ek a) = kheap (ek b) /\ vtag (ev a) = vtag (ev b) /\ vheap (ev a) = vheap (ev b) /\ es a = es b.
@@ -102,6 +102,53 @@ Example C14_example_clone :
   | None => False end.
 Proof. vm_compute. repeat split; reflexivity. Qed.
 
+(* INDEPENDENCE FOR WHOLE PUBLIC OPERATIONS (B/FrameOps.v).  Two caches in ONE heap: any public operation of the pointer-level
+   model on one of them — insertion with eviction and rebuild, mutate, retain, clear, drain, reserve, shrink, every lookup —
+   writes or frees only that cache's own nodes (its seal and its listed buckets) and the buckets the oracle hands it (the
+   bucket of a new entry, the targets of a rebuild): `Fr (extra oB)`.  Hence every other cache whose nodes are disjoint from
+   those stays coherent and keeps exactly its content. *)
+Theorem C14_frame_ops : forall E VS b p oB b' o evs, RIb b -> KU b -> stepB E VS b p oB = Some (b', o, evs) ->
+  gseal (bg b') = gseal (bg b) /\
+  (forall x, In x (glist (bg b')) -> In x (own (bg b)) \/ In x (extra oB)) /\
+  (forall x, ~ In x (own (bg b)) -> ~ In x (extra oB) -> gh (bg b') x = gh (bg b) x).
+Proof. exact stepB_frame. Qed.
+Theorem C14_independent_ops : forall E VS b p oB b' o evs seal2 l2, RIb b -> KU b -> stepB E VS b p oB = Some (b', o, evs) ->
+  RI (gh (bg b)) seal2 l2 -> (forall x, In x (seal2 :: l2) -> ~ In x (own (bg b)) /\ ~ In x (extra oB)) ->
+  RI (gh (bg b')) seal2 l2 /\ absl (gh (bg b')) l2 = absl (gh (bg b)) l2.
+Proof. exact stepB_other_cache. Qed.
+(* ... and over runs of any length from any reachable state ("afterwards no operation on either cache affects the other") *)
+Theorem C14_independent_runs : forall E VS, 0 < E -> VS <= E -> forall b os b' seal2 l2, ReachB E VS b -> RunB E VS b os b' ->
+  RI (gh (bg b)) seal2 l2 ->
+  (forall x, In x (seal2 :: l2) -> ~ In x (own (bg b)) /\ forall oB, In oB os -> ~ In x (extra oB)) ->
+  ReachB E VS b' /\ RI (gh (bg b')) seal2 l2 /\ absl (gh (bg b')) l2 = absl (gh (bg b)) l2.
+Proof. exact runB_other_cache. Qed.
+(* a clone and its source: whatever is then done to the clone (with buckets that are not the source's), the source structure
+   stays coherent and holds exactly the entries it held *)
+Theorem C14_clone_then_ops : forall E VS b seal_c addrs ren bc evs p oB bc' o evs', RIg (bg b) -> KU bc ->
+  bB_clone E b seal_c addrs ren = Some (bc, evs) -> stepB E VS bc p oB = Some (bc', o, evs') ->
+  (forall x, In x (gseal (bg b) :: glist (bg b)) -> ~ In x (extra oB)) ->
+  RI (gh (bg bc')) (gseal (bg b)) (glist (bg b)) /\ absl (gh (bg bc')) (glist (bg b)) = absG (bg b).
+Proof.
+  intros E VS b seal_c addrs ren bc evs p oB bc' o evs' H Hku Hc Hs Hx.
+  destruct (clone_refines E b seal_c addrs ren bc evs H Hc) as (_ & Hbc & Hsrc & Habs & Hdis).
+  destruct (stepB_other_cache E VS bc p oB bc' o evs' (gseal (bg b)) (glist (bg b)) Hbc Hku Hs Hsrc) as [R1 R2].
+  - intros x Hin. split; [exact (Hdis x Hin)|exact (Hx x Hin)].
+  - split; [exact R1|congruence].
+Qed.
+
+(* not vacuous: the clone of the example below (seal 200, buckets 202, 201) takes an insertion into bucket 203; the source
+   (seal 100, buckets 2, 1) is bit for bit what it was *)
+Example C14_example_clone_then_insert :
+  match C14_ex_b2 with
+  | Some b => match bB_clone 72 b 200 [201; 202] (fun t => 1000 + t) with
+              | Some (bc, _) => match stepB 72 24 bc (Insert (C14_ex_k 3) (C14_ex_v 3)) (C14_ex_o 203) with
+                                | Some (bc', _, _) => glist (bg bc') = [203; 202; 201] /\
+                                                      map (gh (bg bc')) [100; 2; 1] = map (gh (bg b)) [100; 2; 1]
+                                | None => False end
+              | None => False end
+  | None => False end.
+Proof. vm_compute. repeat split; reflexivity. Qed.
+
 Print Assumptions C14_equal.
 Print Assumptions C14_fresh.
 Print Assumptions C14_inv.
@@ -111,3 +158,7 @@ Print Assumptions C14_footprint_insert.
 Print Assumptions C14_independent.
 Print Assumptions C14_pointer_level.
 Print Assumptions C14_clone_no_fault.
+Print Assumptions C14_frame_ops.
+Print Assumptions C14_independent_ops.
+Print Assumptions C14_independent_runs.
+Print Assumptions C14_clone_then_ops.
